@@ -2,6 +2,7 @@
 of C20).  PARSED, NEVER EXECUTED."""
 import functools
 import logging
+import string
 import sys
 
 from ZConfig.components.logger import loghandler
@@ -135,3 +136,42 @@ def remove_from_reopenable(wr):
         _reopenable_handlers.remove(wr)
     except ValueError:
         pass
+
+
+# ------------------------------------------------------------ format styles
+# One class per style; each knows how its placeholders are spelled
+# (usesTime) and renders a record's attributes (format).
+
+def style_init(self, fmt):
+    self._fmt = fmt or self.default_format
+
+
+def template_init(self, fmt):
+    self._fmt = fmt or self.default_format
+    self._tpl = string.Template(self._fmt)
+
+
+def percent_usesTime(self):
+    return self._fmt.find(self.asctime_search) >= 0
+
+
+def template_usesTime(self):
+    # '$asctime' and '${asctime}' both name the time
+    fmt = self._fmt
+    return fmt.find('$asctime') >= 0 or fmt.find(self.asctime_format) >= 0
+
+
+def percent_format(self, record):
+    return self._fmt % record.__dict__
+
+
+def strformat_format(self, record):
+    return self.__formatter.vformat(self._fmt, (), record.__dict__)
+
+
+def template_format(self, record):
+    return self._tpl.substitute(record.__dict__)
+
+
+def safetemplate_format(self, record):
+    return self._tpl.safe_substitute(record.__dict__)
